@@ -32,6 +32,11 @@ func ZZ_C12_ersIsolation() {
 		}
 		rsNew.Annotations[datadoghqv1alpha1.ExtendedDaemonSetOldDaemonsetAnnotationKey] = "legacy"
 	}
+	// the pod template may itself name a namespace (the CRD exposes the whole ObjectMeta): pods are
+	// still created in the namespace of the ExtendedDaemonSet
+	if nondet.Bool("x.templateNamesAnotherNamespace") {
+		rsNew.Spec.Template.Namespace = "ns2"
+	}
 	// DaemonSets: "legacy" in ns (the declared one), "legacy" in ns2, "other" in ns — same selector
 	sel := &metav1.LabelSelector{MatchLabels: map[string]string{"app": "agent"}}
 	c.DaemonSets = append(c.DaemonSets,
